@@ -376,6 +376,9 @@ class EptMapResult:
         # max_tower_count = int.from_bytes(view[24:32], byteorder="little")
         # tower_offset = int.from_bytes(view[32:40], byteorder="little")
         tower_count = int.from_bytes(view[40:48], byteorder="little")
+        if tower_count > len(view) // 8:
+            raise ValueError(f"Failed to unpack {cls.__name__} as the tower count {tower_count} exceeds the data")
+
         tower_data_offset = 8 * tower_count  # Ignore referent ids
         view = view[48 + tower_data_offset :]
 
